@@ -60,6 +60,8 @@ var checks = map[string]*check{
 			{Name: "routing-2id", Kind: "explore", Scen: "grpc_route", Inst: inst("pairs", "pairs-all"), Depths: depths([]int{1}, []int{1, 2}), Budget: budget(3*time.Minute, 25*time.Minute)},
 			// the real host against a hand-written gRPC plugin that announces four brokered servers and ends the broker stream at once
 			{Name: "hand-written-peer", Kind: "explore", Scen: "raw_grpc_peer", Inst: inst("broker-eos", "broker-eos"), Depths: depths([]int{2}, []int{2, 3}), Budget: budget(2*time.Minute, 10*time.Minute)},
+			// ... or that ends the broker stream after IT has dialled a server the host accepted, and keeps using that connection
+			{Name: "hand-written-peer-ends-stream", Kind: "explore", Scen: "raw_grpc_peer", Inst: inst("broker-late-eos", "broker-late-eos"), Depths: depths([]int{1}, []int{1, 2}), Budget: budget(2*time.Minute, 10*time.Minute)},
 			// ... and whose announcements carry an empty knock sub-message (a legal wire encoding of the same announcement)
 			{Name: "hand-written-peer-encoding", Kind: "explore", Scen: "raw_grpc_peer", Inst: inst("broker-emptyknock", "broker-emptyknock"), Depths: depths([]int{1}, []int{1, 2}), Budget: budget(2*time.Minute, 10*time.Minute)},
 			// fine-grained preemption (every function entry of go-plugin, and grpc.Dial, is a scheduling point): two ids
